@@ -377,21 +377,28 @@ def check_order_and_output(ctx):
       n2 = match.is_none_test(e, lambda x: unparse(x) == f"{gen}.document_lang")
       if n2 is not None:
         return ("lang-none", n2)
+      if unparse(e) == f"{gen}.document_lang":
+        return ("lang-truthy", True)         # a truthiness test: false for the empty language tag as well
+      if unparse(e) == gen:
+        return ("gen-truthy", True)
       return None
     ok = bool(conds)
     try:
-      for gn, ln in itertools.product((False, True), repeat=2):
-        def val(atom, gn=gn, ln=ln):
+      # the configuration is absent / present; the language is absent, the empty tag "" (a valid xml:lang) or a non-empty tag
+      for gn, lang in itertools.product((False, True), (None, "", "en")):
+        def val(atom, gn=gn, lang=lang):
           if atom == "gen-none":
             return gn
+          if atom == "gen-truthy":
+            return not gn
           if gn:
             raise match.AtomError(atom)
-          return ln
+          return (lang is None) if atom == "lang-none" else bool(lang)
         try:
           runs = all(match.eval_bool(t, leaf, val) == pol for t, pol in conds)
         except match.AtomError:
           runs = None
-        if runs != (not gn and not ln):
+        if runs != (not gn and lang is not None):
           ok = False
     except ValueError as e:
       raise AnalysisError(f"convert: the guard of set_lang has a part that is not recognised: `{e}`")
